@@ -1045,7 +1045,7 @@ impl Prop for C04 {
     fn info(&self) -> PropInfo {
         PropInfo {
             level: "exploration",
-            rule: "part 1 (enumerated, both tiers): ALL datagrams of length <= 3 (16.8 M) pushed into receivers in the middle of valid sessions; EVERY single-byte substitution (255 values) at every position of the header region (LCT header, extensions, FEC payload id; first 72 bytes) of every packet of a 23-session corpus (5 FEC schemes x in-band/FDT-only signalling x cenc, FDT over No-Code/RS/RaptorQ/Raptor), each position in its own receiver in session context; the same for harness-encoded packets of the Reed-Solomon GF(2^m) scheme (parsed by flute, never emitted by its sender), with in-band FTI and with an FDT announcing it; part 2: seeded sequences of 1-50 faults interleaved with valid traffic: random bytes, byte mutation, truncation, extension, splices of two packets, field-aware edits (HDR_LEN, flags, codepoint, TSI/TOI, SBN/ESI/block length, every EXT_FTI field, EXT_FDT, EXT_CENC, raw EXT_TIME, unknown extensions, close flags, payload length) re-encoded by the harness encoder, and crafted FDT instances with rewritten attributes, deep nesting, entities, truncation, thousands of File entries. Oracle: no panic (overflow checks and debug assertions on), loop budget per call, no single allocation > 64 MiB and no heap growth > 256 MiB per push (counting allocator), worker abort/hang caught by process isolation; recovery: if every faulty packet was rejected the valid session on the SAME TSI must be delivered exactly, otherwise a valid session on a fresh TSI. Non-trivial: at least one fault fired.",
+            rule: "part 1 (enumerated, both tiers): ALL datagrams of length <= 3 (16.8 M) pushed into receivers in the middle of valid sessions; EVERY single-byte substitution (255 values) at every position of the header region (LCT header, extensions, FEC payload id; first 72 bytes) of every packet of a 23-session corpus (5 FEC schemes x in-band/FDT-only signalling x cenc, FDT over No-Code/RS/RaptorQ/Raptor), each position in its own receiver in session context; the same for harness-encoded packets of the Reed-Solomon GF(2^m) scheme (parsed by flute, never emitted by its sender), with in-band FTI and with an FDT announcing it; part 2: seeded sequences of 1-50 faults interleaved with valid traffic: random bytes, byte mutation, truncation, extension, splices of two packets, field-aware edits (HDR_LEN, flags, codepoint, TSI/TOI, SBN/ESI/block length, every EXT_FTI field, EXT_FDT, EXT_CENC, raw EXT_TIME, unknown extensions, close flags, payload length) re-encoded by the harness encoder, and crafted FDT instances with rewritten attributes, deep nesting, entities, truncation, thousands of File entries. Oracle: no panic (overflow checks and debug assertions on), loop budget per call, no single allocation > 64 MiB and no heap growth > 256 MiB per push (counting allocator), worker abort/hang caught by process isolation; recovery: if every faulty packet was rejected the valid session on the SAME TSI must be delivered exactly, otherwise a valid session on a fresh TSI; always a NEW valid session on the same TSI; after payload-only corruptions (MD5 checked) two immediate retransmissions of the valid session on the same TSI. Non-trivial: at least one fault fired.",
             assumptions: vec!["a mutated packet that flute accepts (Ok) may legitimately change that session's state", "allocation limits: 64 MiB per allocation with a 64 KiB object cache configured"],
             real: vec!["MultiReceiver/Receiver and everything below incl. quick-xml deserialisation and all FEC decoders"],
             stub: vec!["network (adversarial)", "clocks", "monitoring writer", "global allocator (counting)"],
